@@ -4,28 +4,28 @@
 
 // failed check (assertion): assertion failed: r.rank(p) == exp
 #[test]
-fn kani_concrete_playback_rank9_n9_len575_18200120998892958123() {
+fn kani_concrete_playback_rank9_n9_len575_18138070336920743114() {
     let concrete_vals: Vec<Vec<u8>> = vec![
+        // 0ul
+        vec![0, 0, 0, 0, 0, 0, 0, 0],
+        // 0ul
+        vec![0, 0, 0, 0, 0, 0, 0, 0],
+        // 0ul
+        vec![0, 0, 0, 0, 0, 0, 0, 0],
+        // 3548818914181906432ul
+        vec![0, 0, 0, 0, 0, 240, 63, 49],
+        // 18446744071595294711ul
+        vec![247, 255, 250, 129, 255, 255, 255, 255],
         // 18446744073709551615ul
         vec![255, 255, 255, 255, 255, 255, 255, 255],
-        // 18446744073709551615ul
-        vec![255, 255, 255, 255, 255, 255, 255, 255],
-        // 18446744073709551615ul
-        vec![255, 255, 255, 255, 255, 255, 255, 255],
-        // 18446744073709551615ul
-        vec![255, 255, 255, 255, 255, 255, 255, 255],
-        // 18446744073709551615ul
-        vec![255, 255, 255, 255, 255, 255, 255, 255],
-        // 18446744073709551615ul
-        vec![255, 255, 255, 255, 255, 255, 255, 255],
-        // 18446744073709551615ul
-        vec![255, 255, 255, 255, 255, 255, 255, 255],
-        // 18446744073709551615ul
-        vec![255, 255, 255, 255, 255, 255, 255, 255],
-        // 18446744073709551615ul
-        vec![255, 255, 255, 255, 255, 255, 255, 255],
-        // 9007199255003144ul
-        vec![8, 0, 4, 0, 0, 0, 32, 0],
+        // 18446744004990074879ul
+        vec![255, 255, 255, 255, 239, 255, 255, 255],
+        // 18437736874421256191ul
+        vec![255, 255, 255, 253, 255, 255, 223, 255],
+        // 18446603336221196287ul
+        vec![255, 255, 255, 255, 255, 127, 255, 255],
+        // 827ul
+        vec![59, 3, 0, 0, 0, 0, 0, 0],
     ];
     kani::concrete_playback_run(concrete_vals, crate::c01::q::rank9_n9_len575);
 }
